@@ -26,6 +26,14 @@ Definition E_CODEC : Z := 3.           (* whatever the library / xz reported *)
 Definition lzma_size_off : Z := 5.
 Definition lzma_header_len : Z := 13.
 
+(* A history of calls of one Encode (or Decode) function, every result retained
+   by the caller: the Go functions are modelled as functions of their argument
+   only - no state kept between calls, no buffer shared between results - so
+   the results of a history are the function applied to each argument.  The
+   correspondence compares whole histories (results observed after the last
+   call) against this. *)
+Definition call_history {A B : Type} (f : A -> B) (xs : list A) : list B := map f xs.
+
 Section Framing.
   (* compress/zlib: NewWriterLevel(9) + Write + Close into a bytes.Buffer (cannot fail);
      NewReader + ReadAll *)
